@@ -21,6 +21,8 @@ EXTENDS Integers, Sequences, FiniteSets, TLC
 
 CONSTANTS Kinds,           \* function caller -> kind in {"open","meta","closeUp","read","closeDown","openDown"}
           LeakRLock, CloseWaitWakes, MuHeldDuringWait, ResultChBuffered,
+          HookUnderLock,   \* FALSE: as coded, user hooks are queued to the stream's event dispatcher and run with no library lock held;
+                           \* TRUE: the send hook is called from the flush critical section (Upstream.mu held)
           MaxMeta          \* number of DownstreamMetadata messages the adversary sends
 
 Callers == DOMAIN Kinds
@@ -37,13 +39,14 @@ VARIABLES pc,        \* caller -> "idle" | "wantMu" | "wait" | "ackWait" | "want
           acked,     \* the upstream's chunk has been acknowledged
           umu,       \* holder of Upstream.mu ("none", "rl" = the result loop, or a caller)
           waiter,    \* the chunk's sender: "waiting" for its result | "gone" (ack timeout) | "served"
-          rl         \* result loop: "idle" | "handing" (holds Upstream.mu, hands the result over) | "done"
-vars == <<pc, expired, overrun, mu, rlocks, dsw, resp, nmeta, acked, umu, waiter, rl>>
-ust == <<umu, waiter, rl>>
+          rl,        \* result loop: "idle" | "handing" (holds Upstream.mu, hands the result over) | "done"
+          hook       \* the user's send hook for one chunk: "none" | "queued" | "running" (it calls back into the stream: State()) | "done"
+vars == <<pc, expired, overrun, mu, rlocks, dsw, resp, nmeta, acked, umu, waiter, rl, hook>>
+ust == <<umu, waiter, rl, hook>>
 
 Init == /\ pc = [p \in Callers |-> "idle"] /\ expired = [p \in Callers |-> FALSE] /\ overrun = [p \in Callers |-> FALSE]
         /\ mu = "none" /\ rlocks = 0 /\ dsw = "none" /\ resp = [p \in Callers |-> "none"] /\ nmeta = 0 /\ acked = FALSE
-        /\ umu = "none" /\ waiter = "waiting" /\ rl = "idle"
+        /\ umu = "none" /\ waiter = "waiting" /\ rl = "idle" /\ hook = "none"
 
 NeedsMu(p) == Kinds[p] \in {"open", "meta", "openDown"}
 
@@ -96,14 +99,26 @@ Meta(known) == /\ nmeta < MaxMeta /\ dsw = "none"
 \* ---- Upstream.mu: result hand-over and the calls that need the stream lock
 \* the sender's ack timeout fires: it stops waiting for the result
 WaiterGivesUp == /\ waiter = "waiting" /\ rl = "idle" /\ waiter' = "gone"
-                 /\ UNCHANGED <<pc, expired, overrun, mu, rlocks, dsw, resp, nmeta, acked, umu, rl>>
+                 /\ UNCHANGED <<pc, expired, overrun, mu, rlocks, dsw, resp, nmeta, acked, umu, rl, hook>>
 \* the broker's acknowledgement arrives (in time or late): processResult takes Upstream.mu
 ResultArrives == /\ rl = "idle" /\ umu = "none" /\ rl' = "handing" /\ umu' = "rl"
-                 /\ UNCHANGED <<pc, expired, overrun, mu, rlocks, dsw, resp, nmeta, acked, waiter>>
+                 /\ UNCHANGED <<pc, expired, overrun, mu, rlocks, dsw, resp, nmeta, acked, waiter, hook>>
 \* ch <- result: completes if the sender still waits, or if the channel is buffered; otherwise processResult stays blocked with the lock
 HandOver == /\ rl = "handing" /\ (waiter = "waiting" \/ ResultChBuffered)
             /\ rl' = "done" /\ umu' = "none" /\ waiter' = IF waiter = "waiting" THEN "served" ELSE waiter
-            /\ UNCHANGED <<pc, expired, overrun, mu, rlocks, dsw, resp, nmeta, acked>>
+            /\ UNCHANGED <<pc, expired, overrun, mu, rlocks, dsw, resp, nmeta, acked, hook>>
+\* the flush loop cuts a chunk under Upstream.mu and announces it to the user's send hook
+FlushCut == /\ hook = "none" /\ umu = "none"
+            /\ IF HookUnderLock THEN umu' = "flush" /\ hook' = "running" ELSE umu' = umu /\ hook' = "queued"
+            /\ UNCHANGED <<pc, expired, overrun, mu, rlocks, dsw, resp, nmeta, acked, waiter, rl>>
+\* the stream's event dispatcher calls the queued hook (no library lock held)
+HookStarts == /\ hook = "queued" /\ hook' = "running"
+              /\ UNCHANGED <<pc, expired, overrun, mu, rlocks, dsw, resp, nmeta, acked, umu, waiter, rl>>
+\* the hook reads the stream's State(): it needs Upstream.mu like any other caller; afterwards the flush critical section (if it is the
+\* one that called the hook) ends
+HookCallsState == /\ hook = "running" /\ umu \in {"none"}
+                  /\ hook' = "done"
+                  /\ UNCHANGED <<pc, expired, overrun, mu, rlocks, dsw, resp, nmeta, acked, umu, waiter, rl>>
 \* WriteDataPoints / Flush / State(): sync.(RW)Mutex, not context-aware; the critical section itself is short
 TakeUmu(p) == /\ pc[p] = "wantUmu" /\ umu = "none"
               /\ pc' = [pc EXCEPT ![p] = "done"]
@@ -114,20 +129,21 @@ Blind(p) == \/ (pc[p] = "wantMu" /\ mu # "none")
             \/ (pc[p] = "wantDsMu" /\ (rlocks > 0 \/ dsw # "none"))
             \/ (pc[p] = "ackWait" /\ ~CloseWaitWakes /\ ~acked)
             \/ (pc[p] = "wantUmu" /\ umu = "rl" /\ ~(waiter = "waiting" \/ ResultChBuffered))   \* behind a holder that cannot move (a short critical section is slack)
+            \/ (pc[p] = "wantUmu" /\ umu = "flush")                                                \* behind a critical section that waits for itself
 Expire(p) == /\ pc[p] \notin {"idle", "done"} /\ ~expired[p]
              /\ expired' = [expired EXCEPT ![p] = TRUE]
              /\ overrun' = [overrun EXCEPT ![p] = Blind(p)]
              /\ UNCHANGED <<pc, mu, rlocks, dsw, resp, nmeta, acked, ust>>
 
 Next == \/ \E p \in Callers : Call(p) \/ TakeMu(p) \/ WaitReturns(p) \/ AckWaitReturns(p) \/ TakeDsMu(p) \/ Expire(p) \/ TakeUmu(p)
-        \/ WaiterGivesUp \/ ResultArrives \/ HandOver
+        \/ WaiterGivesUp \/ ResultArrives \/ HandOver \/ FlushCut \/ HookStarts \/ HookCallsState
         \/ \E p \in Callers, a \in Adversary : Decide(p, a)
         \/ AckArrives \/ \E k \in BOOLEAN : Meta(k)
 
 \* fairness: the library's own steps and the timers are fair; the adversary (Decide, AckArrives, Meta) is not
 Fair == /\ \A p \in Callers : WF_vars(TakeMu(p)) /\ WF_vars(WaitReturns(p)) /\ WF_vars(AckWaitReturns(p)) /\ WF_vars(TakeDsMu(p)) /\ WF_vars(Expire(p))
                                /\ WF_vars(TakeUmu(p))
-        /\ WF_vars(HandOver)
+        /\ WF_vars(HandOver) /\ WF_vars(HookStarts) /\ WF_vars(HookCallsState)
 Spec == Init /\ [][Next]_vars /\ Fair
 
 \* ---- properties
@@ -137,6 +153,8 @@ EveryCallReturns == \A p \in Callers : (pc[p] # "idle") ~> (pc[p] = "done")
 NoOverrun == \A p \in Callers : ~overrun[p]
 \* no input sequence leaves the client holding a lock it never releases
 NoLockLeak == (\A p \in Callers : pc[p] \in {"idle", "done"}) => (mu = "none" /\ rlocks = 0 /\ dsw = "none")
+\* a user callback never runs inside a library critical section it needs itself
+NoHookUnderLock == ~(hook = "running" /\ umu = "flush")
 \* the result loop never sits on the stream lock waiting for a sender that has gone
 NoStuckHandOver == ~(rl = "handing" /\ waiter = "gone" /\ ~ENABLED HandOver)
 
